@@ -943,6 +943,11 @@ def compare(interp, op, a, b):
     if op is ast.Eq:
         return py_eq(interp, a, b)
     if op is ast.NotEq:
+        for x, y in ((a, b), (b, a)):
+            if isinstance(x, Obj):
+                m, _ = x.cls.lookup('__ne__')
+                if m is not None:
+                    return interp.call(m, [x, y], {})
         r = py_eq(interp, a, b)
         return bool_not(r if isinstance(r, (bool, SBool))
                         else truthy(interp, r))
